@@ -35,6 +35,11 @@ pub fn quiescent_clean(trace: &[String]) -> (bool, String) {
             ("cli", "finished") => {
                 finished.insert(w[2].to_string());
             }
+            // a caller that gave up waiting (future dropped) is complete from its own point of view
+            ("cli", "cancelled") => {
+                done.insert(w[2].to_string());
+                finished.insert(w[2].to_string());
+            }
             _ => {}
         }
     }
@@ -148,6 +153,63 @@ pub fn run(thorough: bool, mut rng: Rng, mut out: Out) {
         out.r(&format!("leaks.abandoned-id-is-free {}", label), free, &tbl);
         if bystander {
             out.r(&format!("leaks.abandon-leaves-the-others-alone {}", label), o.trace.iter().any(|t| t.starts_with("cli done 1 frame:")), &ev);
+        }
+    }
+    // A caller that stops waiting WITHOUT the library's own time-out (the operation's future is dropped by an
+    // outer timeout / select! / task abort) while the request is on its way or already answered: once the
+    // server's answer has come in, nothing of the operation may be left — ID table and both maps empty.
+    let ncancel = if thorough { 600 } else { 60 };
+    for k in 0..ncancel {
+        let search = k % 4 == 3;
+        let settle_first = k % 2 == 0;       // the request was written before the caller gave up / still queued
+        let bystander = rng.chance(1, 2);
+        let rounds = 1 + rng.below(3) as usize;
+        let mut sc = vec![];
+        let mut id = 0i64;
+        let mut opno = 0usize;
+        for _ in 0..rounds {
+            sc.push(Step::Issue { kind: if search { OpKind::Search } else { OpKind::Single }, tmo_ms: None });
+            id += 1;
+            let (cid, cop) = (id, opno);
+            opno += 1;
+            if settle_first {
+                sc.push(Step::Settle);
+            }
+            sc.push(Step::CancelOp(cop));
+            sc.push(Step::Settle);
+            if bystander {
+                sc.push(Step::Issue { kind: OpKind::Single, tmo_ms: None });
+                id += 1;
+                opno += 1;
+                sc.push(Step::Settle);
+                sc.push(Step::Send { id, op: 11, good: true });
+                sc.push(Step::Settle);
+            }
+            // the late answer(s) to the operation nobody waits for any more
+            if search {
+                sc.push(Step::Send { id: cid, op: 4, good: false });
+                sc.push(Step::Send { id: cid, op: 5, good: true });
+            } else {
+                sc.push(Step::Send { id: cid, op: 11, good: true });
+            }
+            sc.push(Step::Settle);
+        }
+        sc.push(Step::Table);
+        let o = run_script(&sc);
+        let ev = to_model_events(&o.trace);
+        let label = format!("cancel#{} {} written-first={} bystander={} rounds={}", k, if search { "search" } else { "single" }, settle_first, bystander, rounds);
+        out.case(&format!("{} {}", label, ev), true);
+        out.stat("cancel.scenarios");
+        if !search {
+            // (a cancelled search start leaves a channel whose receiver is gone: the model has no event for that)
+            out.m(&format!("conn.trace {}", ev), "accept");
+        }
+        let (clean, d) = quiescent_clean(&o.trace);
+        out.stat(if d == "not applicable" { "cancel.not-quiescent" } else { "cancel.quiescent" });
+        out.r(&format!("leaks.cancelled-caller-leaves-nothing-behind {}", label), clean && d != "not applicable", &format!("{} | {}", d, ev));
+        if bystander {
+            let all = (0..opno).filter(|i| o.trace.iter().any(|t| t.starts_with(&format!("cli done {} frame:", i)))).count();
+            out.r(&format!("leaks.cancel-leaves-the-others-alone {}", label), all == rounds, &ev);
         }
     }
     let n = if thorough { 80000 } else { 2000 };
